@@ -4,7 +4,7 @@
    j <= k, all are additive and self-adjoint.  That the einsum code realises such A_k, B_k is measured by the check (DESIGN.md).
    Only theorem statements closed by `exact`, each followed by Print Assumptions. *)
 From Coq Require Import List Arith.
-From TT Require Import ProjP ProjAlgP ProjFullP.
+From TT Require Import RingSig SumN Mat Core ProjP ProjAlgP ProjFullP FrobP OrthP.
 Import ListNotations.
 
 (* P x = x: the base point is fixed by the projection onto its own tangent space *)
@@ -66,9 +66,29 @@ Theorem C16_proj_residual_orthogonal (G : Type) (gz : G) (gadd : G -> G -> G) (g
   forall z w, ip (proj G gz gadd (gsub G gadd gneg) A B dm1 z) (proj G gz gadd (gsub G gadd gneg) A B dm1 w) = ip z (proj G gz gadd (gsub G gadd gneg) A B dm1 w).
 Proof. exact (proj_residual_orthogonal G gz gadd gneg). Qed.
 
+(* ---- where the hypotheses come from: the left interface projector A_k = U U^H built from an ORTHOGONAL gauge (what lr_orthogonal's QR
+   sweep produces core by core), written as its kernel on the leading modes, is Hermitian and idempotent and fixes every tensor that
+   continues the same prefix - for every order, mode sizes and ranks, real and complex.  (The nesting of the ranges and the commutation with
+   the right projectors are measured, DESIGN.md.) ---- *)
+Section Kernel.
+Context {R : Type} {RO : RingOps R} {RL : RingLaws R}.
+Theorem C16_left_projector_hermitian (x : tt R) i j : kernelL x j i = rconj (kernelL x i j).
+Proof. exact (kernelL_hermitian x i j). Qed.
+Theorem C16_left_projector_idempotent (x : tt R) i k : linked 1 x -> Forall left_orth x ->
+  sum_idx (shape x) (fun j => rmul (kernelL x i j) (kernelL x j k)) = kernelL x i k.
+Proof. exact (kernelL_idempotent x i k). Qed.
+Theorem C16_left_projector_fixes (x : tt R) (t : nat -> R) i : linked 1 x -> Forall left_orth x ->
+  sum_idx (shape x) (fun j => rmul (kernelL x i j) (sum_n (endrank 1 x) (fun q => rmul (chainM (slices x j) 0%nat q) (t q))))
+  = sum_n (endrank 1 x) (fun p => rmul (chainM (slices x i) 0%nat p) (t p)).
+Proof. exact (kernelL_fixes x t i). Qed.
+End Kernel.
+
 Print Assumptions C16_proj_fixes.
 Print Assumptions C16_proj_additive.
 Print Assumptions C16_tangent_ranks_le.
 Print Assumptions C16_proj_idempotent.
 Print Assumptions C16_proj_selfadjoint.
 Print Assumptions C16_proj_residual_orthogonal.
+Print Assumptions C16_left_projector_hermitian.
+Print Assumptions C16_left_projector_idempotent.
+Print Assumptions C16_left_projector_fixes.
